@@ -4,10 +4,13 @@
 (* mode "history": AddRevision builds every conforming history of at most   *)
 (* MaxRevs revisions over the object numbers Objs (with every subsection    *)
 (* style in Styles and, where it is a free choice, with and without the     *)
-(* entry of object 0); StartRead .. Done are the steps of xref.go readXRef  *)
-(* on the file a conforming writer produces for it.  When the reader is     *)
-(* done, its table must answer every probe as the reference semantics does, *)
-(* and it must hold the newest trailer.                                     *)
+(* entry of object 0); StartRead, ReadTable, ReadXRefStm, ReadXRefStream    *)
+(* and FollowPrev are the steps of xref.go readXRef on the file a           *)
+(* conforming writer produces for it.  When the reader is done, its table   *)
+(* must answer every probe as the reference semantics does, and it must     *)
+(* hold the newest trailer.  (The seen set only matters for /Prev cycles    *)
+(* and shared /XRefStm streams, which conforming files do not have: its     *)
+(* `already seen' branches are never taken here.)                           *)
 (*                                                                           *)
 (* mode "extent": AddPiece builds stream bodies from pieces (ordinary byte, *)
 (* blank, CR, LF, the keyword endstream); the invariants compare            *)
